@@ -8,10 +8,14 @@ Property theorems only (helper lemmas live in `Proofs/Diversify.lean`).
 
 `Div.degreePrune zero m row` is `degree_prune_internal` on one CSR row (entries longer than
 `np.sort(row)[m-1]` overwritten by `0.0`, only when the row has more than `m` entries);
-`Div.elimZeros` is `eliminate_zeros()`.  `Div.searchGraph zero eps top dist argsort m N` is the
-edge set that the model of `NNDescent._init_search_graph` (for `diversify_prob = 1`) computes from
+`Div.elimZeros` is `eliminate_zeros()`.  `Div.searchGraphD zero eps top dist argsort m N draw1 draw2`
+is the edge set that the model of `NNDescent._init_search_graph` computes from
 the neighbour graph `N` (`N[u]` = the stored row of point `u`: `(index, length)` pairs in stored
-order, `-1` padded), exactly in the order the code executes it: forward `diversify`, the
+order, `-1` padded) when the `c`-th evaluation of `tau_rand(rng_state + u) < diversify_prob` in row
+`u` returns `draw1 u c` in the forward and `draw2 u c` in the second pass (in the code both passes
+restart the same private stream `rng_state + u`, so `draw1 = draw2` there; the theorems do not need
+it); `Div.searchGraph … = Div.searchGraphD … (fun _ _ => true) (fun _ _ => true)` is
+`diversify_prob = 1`.  The model runs exactly in the order the code executes it: forward `diversify`, the
 `<= 0 → FLOAT32_EPS` protection, COO→CSR without the `-1` columns (rows stay in list order: the
 stale `has_canonical_format` flag of the hand-filled COO matrix makes `tocsr()` skip sorting), the
 *second greedy pass over the same forward rows* that the code calls reverse diversification
@@ -77,29 +81,79 @@ theorem prune_subset (zero : P) (m : Nat) (row : List (Ent P)) :
     (elimZeros zero (degreePrune zero m row)).Sublist row :=
   prune_sublist zero m row
 
-/-- **Square, no self-loops**: every edge `(u, v)` of the search graph has `u < n`, `0 ≤ v < n`
-(`n` = number of points) and `v ≠ u`. -/
-theorem searchGraph_no_self_loops (zero eps top : P) (dist : Int → Int → P) (argsort : List P → List Nat)
-    (m : Nat) (N : List (List (Ent P))) (u : Nat) (v : Int)
-    (h : (u, v) ∈ searchGraph zero eps top dist argsort m N) :
+/-- **Square, no self-loops, every `diversify_prob`**: whatever the generator tests of the two
+passes return, every edge `(u, v)` of the search graph has `u < n`, `0 ≤ v < n` (`n` = number of
+points) and `v ≠ u`. -/
+theorem searchGraphD_no_self_loops (zero eps top : P) (dist : Int → Int → P) (argsort : List P → List Nat)
+    (m : Nat) (N : List (List (Ent P))) (draw1 draw2 : Nat → Nat → Bool) (u : Nat) (v : Int)
+    (h : (u, v) ∈ searchGraphD zero eps top dist argsort m N draw1 draw2) :
     u < N.length ∧ 0 ≤ v ∧ v < N.length ∧ v ≠ (u : Int) := by
-  obtain ⟨hu, w, hw⟩ := (searchGraph_mem _ _ _ _ _ _ _ _ _).mp h
-  obtain ⟨_, hne, v', hv', hv, _⟩ := uniRows_spec _ _ _ _ _ _ _ _ (finalRows_sub_uni _ _ _ _ _ _ _ _ _ hw)
+  obtain ⟨hu, w, hw⟩ := (searchGraphD_mem _ _ _ _ _ _ _ _ _ _ _).mp h
+  obtain ⟨_, hne, v', hv', hv, _⟩ :=
+    uniRowsD_spec _ _ _ _ _ _ _ _ _ _ (finalRowsD_sub_uni _ _ _ _ _ _ _ _ _ _ _ hw)
   simp only at hv hne
   refine ⟨hu, ?_, ?_, hne⟩ <;> omega
 
-/-- **Subgraph of the symmetrised neighbour graph**: every edge `(u, v)` joins two points of which
-at least one lists the other in the neighbour graph (`Lists N u v`: the stored row of `u` holds an
-entry with index `v`). -/
-theorem searchGraph_subgraph (zero eps top : P) (dist : Int → Int → P) (argsort : List P → List Nat)
+/-- **Square, no self-loops** (`diversify_prob = 1`): every edge `(u, v)` of the search graph has
+`u < n`, `0 ≤ v < n` (`n` = number of points) and `v ≠ u`. -/
+theorem searchGraph_no_self_loops (zero eps top : P) (dist : Int → Int → P) (argsort : List P → List Nat)
     (m : Nat) (N : List (List (Ent P))) (u : Nat) (v : Int)
     (h : (u, v) ∈ searchGraph zero eps top dist argsort m N) :
+    u < N.length ∧ 0 ≤ v ∧ v < N.length ∧ v ≠ (u : Int) :=
+  searchGraphD_no_self_loops zero eps top dist argsort m N _ _ u v h
+
+/-- **Subgraph of the symmetrised neighbour graph, every `diversify_prob`**: whatever the generator
+tests return, every edge `(u, v)` joins two points of which at least one lists the other in the
+neighbour graph (`Lists N u v`: the stored row of `u` holds an entry with index `v`). -/
+theorem searchGraphD_subgraph (zero eps top : P) (dist : Int → Int → P) (argsort : List P → List Nat)
+    (m : Nat) (N : List (List (Ent P))) (draw1 draw2 : Nat → Nat → Bool) (u : Nat) (v : Int)
+    (h : (u, v) ∈ searchGraphD zero eps top dist argsort m N draw1 draw2) :
     Lists N u v ∨ Lists N v.toNat (u : Int) := by
-  obtain ⟨hu, w, hw⟩ := (searchGraph_mem _ _ _ _ _ _ _ _ _).mp h
-  obtain ⟨_, _, v', _, hv, hor⟩ := uniRows_spec _ _ _ _ _ _ _ _ (finalRows_sub_uni _ _ _ _ _ _ _ _ _ hw)
+  obtain ⟨hu, w, hw⟩ := (searchGraphD_mem _ _ _ _ _ _ _ _ _ _ _).mp h
+  obtain ⟨_, _, v', _, hv, hor⟩ :=
+    uniRowsD_spec _ _ _ _ _ _ _ _ _ _ (finalRowsD_sub_uni _ _ _ _ _ _ _ _ _ _ _ hw)
   simp only at hv hor
   have : v.toNat = v' := by omega
   rw [this]; exact hor
+
+/-- **Subgraph of the symmetrised neighbour graph** (`diversify_prob = 1`): every edge `(u, v)`
+joins two points of which at least one lists the other in the neighbour graph (`Lists N u v`: the
+stored row of `u` holds an entry with index `v`). -/
+theorem searchGraph_subgraph (zero eps top : P) (dist : Int → Int → P) (argsort : List P → List Nat)
+    (m : Nat) (N : List (List (Ent P))) (u : Nat) (v : Int)
+    (h : (u, v) ∈ searchGraph zero eps top dist argsort m N) :
+    Lists N u v ∨ Lists N v.toNat (u : Int) :=
+  searchGraphD_subgraph zero eps top dist argsort m N _ _ u v h
+
+/-- **Degree bound in the pipeline, every `diversify_prob`**: `prune_bound` applied where
+`_init_search_graph` applies it.  For `m ≥ 1`, whatever the generator tests return, row `u` of the
+final graph `fin` relates to its candidate row `cand` (after both passes, symmetrisation and diagonal
+removal) as follows: `fin` has at most `m` entries, or there is a cut value — the length of a
+candidate — such that every edge is `≤ cut`, *fewer than `m`* edges are strictly shorter than `cut`,
+and every candidate of length `≤ cut` is an edge.  The out-edges of `u` in `searchGraphD` are exactly
+the indices of `fin` (`Div.searchGraphD_mem`). -/
+theorem searchGraphD_degree (zero eps top : P) (dist : Int → Int → P) (argsort : List P → List Nat)
+    (m : Nat) (hm : 0 < m) (N : List (List (Ent P))) (draw1 draw2 : Nat → Nat → Bool) (u : Nat) :
+    ((finalRowsD zero eps top dist argsort m N draw1 draw2).row u).length ≤ m ∨
+    ∃ cut, cut ∈ ((uniRowsD zero eps top dist argsort N draw1 draw2).row u).map (·.2) ∧
+      (∀ e ∈ (finalRowsD zero eps top dist argsort m N draw1 draw2).row u, e.2 ≤ cut) ∧
+      (((finalRowsD zero eps top dist argsort m N draw1 draw2).row u).filter
+        (fun e => decide (e.2 < cut))).length < m ∧
+      (∀ e ∈ (uniRowsD zero eps top dist argsort N draw1 draw2).row u, e.2 ≤ cut →
+        e ∈ (finalRowsD zero eps top dist argsort m N draw1 draw2).row u) := by
+  rw [finalRowsD_row]
+  by_cases hu : u < N.length
+  · simp only [hu, ↓reduceIte]
+    rcases prune_bound zero m hm ((uniRowsD zero eps top dist argsort N draw1 draw2).row u) with h | h
+    · exact Or.inl h
+    · obtain ⟨cut, h1, h2, h3, h4⟩ := h
+      refine Or.inr ⟨cut, h1, h2, h3, ?_⟩
+      intro e he hle
+      apply h4 e he hle
+      rw [uniRowsD_row] at he
+      simp only [hu, ↓reduceIte, dropDiag, List.mem_filter] at he
+      exact (unionRow_mem _ _ _ _ _ he.1).2.1
+  · left; simp [hu]
 
 /-
 **Nearest neighbour kept — the full statement.**  For every point `u` whose stored row names
@@ -110,21 +164,143 @@ other point).  Then after `prepare` (every `diversify_prob`, every `_vertex_orde
   (ii) `(u, v*)` is an edge unless `m` strictly shorter edges are kept (points that list `u` but
        that `u`'s own approximate list missed).
 
-Proved below (`searchGraph_nearest_partial`) for the pipeline model, i.e. for `diversify_prob = 1`
-and in caller numbering, under the invariants a real neighbour row has:
+Proved below for the pipeline model in caller numbering, for EVERY outcome of the generator tests of
+both passes (`draw1`, `draw2` arbitrary: every `diversify_prob`, every generator state), under the
+invariants a real neighbour row has:
   * `hpre`  — the entries stored before `v*` have real indices and length `≤ eps` (the point itself
               at distance 0, exact duplicates): they can never pass the `> FLOAT32_EPS` guard;
   * `hpost` — the entries stored after it are at least as long (`deheap_sort`, C11);
-  * `hsym`  — the distance table is symmetric (the metric kernels are, bit for bit; without it the
-              statement is false: a tied later entry could occlude `v*` in the second pass);
-  * `argsort` returns an ascending permutation (any tie order);
-  * `zero < eps`.
-Missing for full strength: `diversify_prob < 1` (the pipeline model fixes the draws to "prune";
-on the real code the API predicate of `harness/c16.py` checks (i) and (ii) for 0.5 and 0) and the
-final renaming by `_vertex_order` (undone and checked edge for edge by the harness).
+  * `argsort` returns an ascending arrangement (any tie order);
+  * `zero < eps`;
+and one of
+  * `htie`  (`searchGraph_nearest`)      — no OTHER point stored after `v*` at exactly the same
+              length is strictly closer to `v*` than `u` is (vacuous when `v*` is the unique
+              list-nearest point, the case `harness/c16.py` tests (ii) in); no symmetry needed;
+  * `hfwd` + `hsym` (`searchGraph_nearest_fwd1`) — the forward pass of row `u` prunes on every
+              successful test and the distance table is symmetric (the metric kernels are, bit for
+              bit): a tied closer point was then removed by the forward pass already.  The second
+              pass may draw anything.  `searchGraph_nearest_partial` is the case `diversify_prob = 1`.
+Neither can be dropped for (ii): with `diversify_prob < 1` a tied later entry `y` that is closer to
+`v*` can survive the forward pass by luck, an unstable `argsort` can visit `y` before `v*` in the
+second pass, and `y` then occludes `v*` (the example `tieN` at the end: symmetric table, ascending
+row, ONE draw stream shared by both passes as in the code — and `(u, v*)` is no edge; the real
+kernels do the same on crafted rows of 17 and more entries of equal length, where numba's `argsort`
+is not stable: `diversify`, the scipy glue and `diversify_csr` with one `rng_state`, probability
+0.2 – 0.5, drop the first other entry of such a row in about one case of six).  What holds
+without them is `searchGraph_nearest_tied`: `u` keeps an edge to `v*` *or to a point tied with it*,
+which is (i).
+Missing for full strength: only the final renaming by `_vertex_order` (undone and checked edge for
+edge by the harness).
 -/
 
-/-- **Nearest neighbour kept** (see the comment above for the full statement and what is missing).
+/-- **Nearest neighbour kept, every `diversify_prob`** (see the comment above for the full
+statement and what is missing).  Whatever the generator tests of the two passes return, the
+list-nearest other point `x = (v, d)` of `u` survives the forward pass, the protection, the second
+greedy pass, the symmetrisation and the diagonal removal with some length `w'`; row `u` of the
+final graph holds a shortest entry of that candidate row (so it is not empty); and `(u, v)` itself
+is an edge unless at least `m` kept edges are strictly shorter than `w'`.
+`htie`: no other point stored after `v` at exactly the length `d` is strictly closer to `v` than
+`d` (the test the second kernel would evaluate with `v` as candidate). -/
+theorem searchGraph_nearest (zero eps top : P) (hze : zero < eps) (dist : Int → Int → P)
+    (argsort : List P → List Nat)
+    (hbound : ∀ lens, ∀ i ∈ argsort lens, i < lens.length) (hnd : ∀ lens, (argsort lens).Nodup)
+    (hsorted : ∀ lens, (argsort lens).Pairwise
+      (fun a b => ∀ p q, lens[a]? = some p → lens[b]? = some q → p ≤ q))
+    (draw1 draw2 : Nat → Nat → Bool)
+    (m : Nat) (hm : 0 < m) (N : List (List (Ent P))) (u v : Nat) (d : P)
+    (hu : u < N.length) (hv : v < N.length) (hne : v ≠ u)
+    (pre post : List (Ent P)) (hrow : N.getD u [] = pre ++ ((v : Int), d) :: post)
+    (hpre : ∀ e ∈ pre, 0 ≤ e.1 ∧ e.2 ≤ eps) (hpost : ∀ e ∈ post, d ≤ e.2)
+    (htie : ∀ e ∈ post, e.2 = d → e.1 ≠ (v : Int) → ¬ dist (v : Int) e.1 < d) :
+    ∃ w', ((v : Int), w') ∈ (uniRowsD zero eps top dist argsort N draw1 draw2).row u ∧
+      (∃ e ∈ (finalRowsD zero eps top dist argsort m N draw1 draw2).row u,
+          ∀ e' ∈ (uniRowsD zero eps top dist argsort N draw1 draw2).row u, e.2 ≤ e'.2) ∧
+      ((u, (v : Int)) ∈ searchGraphD zero eps top dist argsort m N draw1 draw2 ∨
+        m ≤ (((finalRowsD zero eps top dist argsort m N draw1 draw2).row u).filter
+          (fun e => decide (e.2 < w'))).length) := by
+  apply nearest_of_snd zero eps top hze dist argsort m hm N draw1 draw2 u v (protect zero eps d) hu hv hne
+  rw [sndRowsD_row, fwdRowsD_row]
+  simp only [hu, ↓reduceIte, hrow]
+  apply secondRowD_keeps zero eps top hze dist argsort hbound hnd hsorted (draw1 u) (draw2 u) pre post
+    ((v : Int), d) (by simp) hpre hpost
+  intro y _ hy hyx hy2 _
+  apply htie y hy hy2
+  intro h1
+  exact hyx (Prod.ext h1 hy2)
+
+/-- **Nearest neighbour kept, forward pass of row `u` with probability 1, any second pass**: the
+conclusion of `searchGraph_nearest` with ties allowed (`htie` dropped), when the table is symmetric
+and every successful test of the forward pass *in row `u`* prunes (`hfwd`; the other rows and the
+whole second pass may draw anything). -/
+theorem searchGraph_nearest_fwd1 (zero eps top : P) (hze : zero < eps) (dist : Int → Int → P)
+    (hsym : ∀ a b, dist a b = dist b a) (argsort : List P → List Nat)
+    (hbound : ∀ lens, ∀ i ∈ argsort lens, i < lens.length) (hnd : ∀ lens, (argsort lens).Nodup)
+    (hsorted : ∀ lens, (argsort lens).Pairwise
+      (fun a b => ∀ p q, lens[a]? = some p → lens[b]? = some q → p ≤ q))
+    (draw1 draw2 : Nat → Nat → Bool)
+    (m : Nat) (hm : 0 < m) (N : List (List (Ent P))) (u v : Nat) (d : P)
+    (hfwd : ∀ c, draw1 u c = true)
+    (hu : u < N.length) (hv : v < N.length) (hne : v ≠ u)
+    (pre post : List (Ent P)) (hrow : N.getD u [] = pre ++ ((v : Int), d) :: post)
+    (hpre : ∀ e ∈ pre, 0 ≤ e.1 ∧ e.2 ≤ eps) (hpost : ∀ e ∈ post, d ≤ e.2) :
+    ∃ w', ((v : Int), w') ∈ (uniRowsD zero eps top dist argsort N draw1 draw2).row u ∧
+      (∃ e ∈ (finalRowsD zero eps top dist argsort m N draw1 draw2).row u,
+          ∀ e' ∈ (uniRowsD zero eps top dist argsort N draw1 draw2).row u, e.2 ≤ e'.2) ∧
+      ((u, (v : Int)) ∈ searchGraphD zero eps top dist argsort m N draw1 draw2 ∨
+        m ≤ (((finalRowsD zero eps top dist argsort m N draw1 draw2).row u).filter
+          (fun e => decide (e.2 < w'))).length) := by
+  apply nearest_of_snd zero eps top hze dist argsort m hm N draw1 draw2 u v (protect zero eps d) hu hv hne
+  have h1 : draw1 u = fun _ => true := funext hfwd
+  rw [sndRowsD_row, fwdRowsD_row]
+  simp only [hu, ↓reduceIte, hrow, h1]
+  exact secondRowD_keeps_fwd1 zero eps top hze dist hsym argsort hbound hnd hsorted (draw2 u) pre post
+    ((v : Int), d) (by simp) hpre hpost
+
+/-- **A nearest neighbour is kept — ties, every `diversify_prob`, every tie order** (part (i) of the
+full statement).  With no hypothesis on tied entries beyond their being other real points
+(`hreal`), whatever the generator tests return there is a point `t` — `v` itself or a point stored
+after it at exactly the same length `d` — that survives both passes, the symmetrisation and the
+diagonal removal; row `u` of the final graph holds a shortest entry of the candidate row (so it is
+not empty); and `(u, t)` is an edge unless at least `m` kept edges are strictly shorter. -/
+theorem searchGraph_nearest_tied (zero eps top : P) (hze : zero < eps) (dist : Int → Int → P)
+    (argsort : List P → List Nat)
+    (hbound : ∀ lens, ∀ i ∈ argsort lens, i < lens.length) (hnd : ∀ lens, (argsort lens).Nodup)
+    (hsorted : ∀ lens, (argsort lens).Pairwise
+      (fun a b => ∀ p q, lens[a]? = some p → lens[b]? = some q → p ≤ q))
+    (draw1 draw2 : Nat → Nat → Bool)
+    (m : Nat) (hm : 0 < m) (N : List (List (Ent P))) (u v : Nat) (d : P)
+    (hu : u < N.length) (hv : v < N.length) (hne : v ≠ u)
+    (pre post : List (Ent P)) (hrow : N.getD u [] = pre ++ ((v : Int), d) :: post)
+    (hpre : ∀ e ∈ pre, 0 ≤ e.1 ∧ e.2 ≤ eps) (hpost : ∀ e ∈ post, d ≤ e.2)
+    (hreal : ∀ e ∈ post, e.2 = d → ∃ t : Nat, e.1 = (t : Int) ∧ t < N.length ∧ t ≠ u) :
+    ∃ (t : Nat) (w' : P), (t = v ∨ ((t : Int), d) ∈ post) ∧
+      ((t : Int), w') ∈ (uniRowsD zero eps top dist argsort N draw1 draw2).row u ∧
+      (∃ e ∈ (finalRowsD zero eps top dist argsort m N draw1 draw2).row u,
+          ∀ e' ∈ (uniRowsD zero eps top dist argsort N draw1 draw2).row u, e.2 ≤ e'.2) ∧
+      ((u, (t : Int)) ∈ searchGraphD zero eps top dist argsort m N draw1 draw2 ∨
+        m ≤ (((finalRowsD zero eps top dist argsort m N draw1 draw2).row u).filter
+          (fun e => decide (e.2 < w'))).length) := by
+  obtain ⟨y, hy, hsnd⟩ := secondRowD_keeps_tied zero eps top hze dist argsort hbound hnd hsorted
+    (draw1 u) (draw2 u) pre post ((v : Int), d) (by simp) hpre hpost
+  have hsnd' : ∀ t : Nat, y.1 = (t : Int) →
+      ((t : Int), protect zero eps d) ∈ (sndRowsD zero eps top dist argsort N draw1 draw2).row u := by
+    intro t ht
+    rw [sndRowsD_row, fwdRowsD_row]
+    simp only [hu, ↓reduceIte, hrow]
+    rw [← ht]; exact hsnd
+  rcases hy with hy | ⟨hy, hy2⟩
+  · obtain ⟨w', h⟩ := nearest_of_snd zero eps top hze dist argsort m hm N draw1 draw2 u v _ hu hv hne
+      (hsnd' v (by rw [hy]))
+    exact ⟨v, w', Or.inl rfl, h⟩
+  · obtain ⟨t, ht, htn, htu⟩ := hreal y hy hy2
+    obtain ⟨w', h⟩ := nearest_of_snd zero eps top hze dist argsort m hm N draw1 draw2 u t _ hu htn htu
+      (hsnd' t ht)
+    refine ⟨t, w', Or.inr ?_, h⟩
+    have : y = ((t : Int), d) := Prod.ext ht hy2
+    rw [← this]; exact hy
+
+/-- **Nearest neighbour kept, `diversify_prob = 1`** (the instance of `searchGraph_nearest_fwd1`
+that was proved first; name kept).
 The list-nearest other point `x = (v, d)` of `u` survives the forward pass, the protection, the
 second greedy pass, the symmetrisation and the diagonal removal with some length `w'`; row `u` of
 the final graph holds a shortest entry of that candidate row (so it is not empty); and `(u, v)`
@@ -142,42 +318,9 @@ theorem searchGraph_nearest_partial (zero eps top : P) (hze : zero < eps) (dist 
       (∃ e ∈ (finalRows zero eps top dist argsort m N).row u,
           ∀ e' ∈ (uniRows zero eps top dist argsort N).row u, e.2 ≤ e'.2) ∧
       ((u, (v : Int)) ∈ searchGraph zero eps top dist argsort m N ∨
-        m ≤ (((finalRows zero eps top dist argsort m N).row u).filter (fun e => decide (e.2 < w'))).length) := by
-  -- both passes keep the entry
-  have hsnd : ((v : Int), protect zero eps d) ∈ (sndRows zero eps top dist argsort N).row u := by
-    rw [sndRows_row, fwdRows_row]
-    simp only [hu, ↓reduceIte, hrow]
-    exact secondRow_keeps zero eps top hze dist hsym argsort hbound hnd hsorted pre post ((v : Int), d)
-      (by simp) hpre hpost
-  -- symmetrisation and diagonal removal
-  obtain ⟨w0, w', _, _, hw'⟩ := unionRow_keeps zero N.length _
-    (revRow N.length (sndRows zero eps top dist argsort N) u) v _ hv
-    (fun e he => sndRows_pos zero eps top hze dist argsort N u e he) hsnd
-  have huni : ((v : Int), w') ∈ (uniRows zero eps top dist argsort N).row u := by
-    rw [uniRows_row]
-    simp only [hu, ↓reduceIte, dropDiag, List.mem_filter, hw', decide_eq_true_eq, true_and]
-    omega
-  have hnz : ∀ e ∈ (uniRows zero eps top dist argsort N).row u, isZero zero e.2 = false := by
-    intro e he
-    rw [uniRows_row] at he
-    simp only [hu, ↓reduceIte, dropDiag, List.mem_filter] at he
-    exact (unionRow_mem _ _ _ _ _ he.1).2.1
-  have hfin : (finalRows zero eps top dist argsort m N).row u =
-      elimZeros zero (degreePrune zero m ((uniRows zero eps top dist argsort N).row u)) := by
-    rw [finalRows_row]; simp [hu]
-  refine ⟨w', huni, ?_, ?_⟩
-  · obtain ⟨e, he, hmin⟩ := exists_min_len _ (List.ne_nil_of_mem huni)
-    refine ⟨e, ?_, hmin⟩
-    rw [hfin]
-    apply prune_mem_of_le zero m _ e he (hnz e he)
-    intro cut hc
-    obtain ⟨e', he', h⟩ := List.mem_map.mp (cutValue_mem m _ cut hc)
-    rw [← h]; exact hmin e' he'
-  · by_cases hk : ((v : Int), w') ∈ (finalRows zero eps top dist argsort m N).row u
-    · exact Or.inl ((searchGraph_mem _ _ _ _ _ _ _ _ _).mpr ⟨hu, w', hk⟩)
-    · right
-      rw [hfin] at hk ⊢
-      exact prune_removed_count zero m hm _ hnz _ huni hk
+        m ≤ (((finalRows zero eps top dist argsort m N).row u).filter (fun e => decide (e.2 < w'))).length) :=
+  searchGraph_nearest_fwd1 zero eps top hze dist hsym argsort hbound hnd hsorted
+    (fun _ _ => true) (fun _ _ => true) m hm N u v d (fun _ => rfl) hu hv hne pre post hrow hpre hpost
 
 /-! ## non-vacuity -/
 
@@ -208,5 +351,81 @@ example : searchGraph 0 1 1000 lineD stableArgsort 2 lineN
     = [(0, 1), (1, 0), (1, 2), (2, 1), (2, 3), (3, 2)] := by decide +kernel
 example : searchGraph 0 1 1000 lineD stableArgsort 1 lineN
     = [(0, 1), (1, 0), (2, 1), (3, 2)] := by decide +kernel
+
+/-- the historical names are the instances for `diversify_prob = 1`, by definition -/
+example (zero eps top : P) (dist : Int → Int → P) (argsort : List P → List Nat) (m : Nat)
+    (N : List (List (Ent P))) :
+    searchGraph zero eps top dist argsort m N =
+      searchGraphD zero eps top dist argsort m N (fun _ _ => true) (fun _ _ => true) := rfl
+
+/-- A draw stream that is not constant (the same in both passes, as in the code): the first
+successful test of row 0 does not prune, everything else does.  Point 0 then keeps the edge to
+point 2 (behind point 1) through both passes, point 2 gains the reverse edge `(2, 0)` of length 50
+and, with `m = 2`, loses its longest candidate `(2, 3)` to the degree bound; `(3, 2)` stays.
+With `m = 1` the draws do not show: every point keeps its nearest neighbour only. -/
+def lineDraw : Nat → Nat → Bool := fun u c => decide (u ≠ 0 ∨ 0 < c)
+
+example : searchGraphD 0 1 1000 lineD stableArgsort 2 lineN lineDraw lineDraw
+    = [(0, 1), (0, 2), (1, 0), (1, 2), (2, 0), (2, 1), (3, 2)] := by decide +kernel
+example : (uniRowsD 0 1 1000 lineD stableArgsort lineN lineDraw lineDraw).row 2
+    = [(0, 50), (1, 30), (3, 60)] := by decide +kernel
+example : searchGraphD 0 1 1000 lineD stableArgsort 1 lineN lineDraw lineDraw
+    = [(0, 1), (1, 0), (2, 1), (3, 2)] := by decide +kernel
+/-- probability 0 in both passes: nothing is diversified away, only the degree bound cuts -/
+example : searchGraphD 0 1 1000 lineD stableArgsort 2 lineN (fun _ _ => false) (fun _ _ => false)
+    = [(0, 1), (0, 2), (1, 0), (1, 2), (2, 0), (2, 1), (3, 1), (3, 2)] := by decide +kernel
+
+/-- **`htie` cannot be dropped when `diversify_prob < 1`.**  Point 0 lists the points 1, 3, 2 at the
+same length 20 (ascending row, self first); these three are at distance 10 from each other (a
+symmetric table); none of them lists point 0.  One draw stream, shared by both passes as in the code:
+the second successful test does not prune, all others do.  Forward pass of row 0: 3 is removed
+(test 0 against 1), 2 survives (test 1).  Second pass with an `argsort` that returns tied positions
+in reverse storage order (`revStableArgsort`, an ascending arrangement like any other): 2 is visited
+before 1 and occludes it (test 0 prunes).  Row 0 is left with the edge to 2 only — `(0, 1)` is no
+edge although point 1 is the first other point of the list and no edge is shorter (`m = 5`), which
+is what `searchGraph_nearest_tied` allows and `searchGraph_nearest` (without `htie`) would forbid.
+With the stable order, or with probability 1, `(0, 1)` is kept. -/
+def tieD (a b : Int) : Nat := if a = b then 0 else if a = 0 ∨ b = 0 then 20 else 10
+def tieN : List (List (Ent Nat)) :=
+  [[(0, 0), (1, 20), (3, 20), (2, 20)], [(1, 0), (2, 10), (3, 10)], [(2, 0), (1, 10), (3, 10)],
+   [(3, 0), (1, 10), (2, 10)]]
+def tieDraw : Nat → Nat → Bool := fun _ c => decide (c ≠ 1)
+
+example : (fwdRowsD 0 1 1000 tieD tieN tieDraw).row 0 = [(0, 1), (1, 20), (2, 20)] := by decide +kernel
+example : (uniRowsD 0 1 1000 tieD revStableArgsort tieN tieDraw tieDraw).row 0 = [(2, 20)] := by
+  decide +kernel
+example : searchGraphD 0 1 1000 tieD revStableArgsort 5 tieN tieDraw tieDraw
+    = [(0, 2), (1, 2), (1, 3), (2, 0), (2, 1), (2, 3), (3, 1), (3, 2)] := by decide +kernel
+example : (0, 1) ∈ searchGraphD 0 1 1000 tieD stableArgsort 5 tieN tieDraw tieDraw ∧
+    (0, 1) ∈ searchGraph 0 1 1000 tieD revStableArgsort 5 tieN := by decide +kernel
+
+/-- **The hypotheses on `argsort` are satisfiable** (`Div.ArgsortOk` = `hbound ∧ hnd ∧ hsorted` of
+the theorems above, for every input): by the stable order and by the order that returns ties in
+reverse storage order — two of the arrangements an unstable `np.argsort` may return. -/
+theorem argsort_hypotheses_satisfiable :
+    ArgsortOk (stableArgsort (P := P)) ∧ ArgsortOk (revStableArgsort (P := P)) :=
+  ⟨stableArgsort_ok, revStableArgsort_ok⟩
+
+/-- **`searchGraph_nearest` is false without `htie`** (and `searchGraph_nearest_partial` is false
+for `diversify_prob < 1`): the instance above satisfies every other hypothesis — `zero < eps`,
+a symmetric table, an admissible `argsort`, the row of point 0 split as `pre ++ (1, 20) :: post` with
+`hpre` and `hpost` — the two passes even share one draw stream, and yet point 1 is not in the
+candidate row of point 0, so the first conjunct of the conclusion fails. -/
+theorem searchGraph_nearest_needs_htie :
+    (0 : Nat) < 1 ∧ (∀ a b, tieD a b = tieD b a) ∧ ArgsortOk (revStableArgsort (P := Nat)) ∧
+    tieN.getD 0 [] = [(0, 0)] ++ (((1 : Nat) : Int), 20) :: [(3, 20), (2, 20)] ∧
+    (∀ e ∈ [((0 : Int), 0)], 0 ≤ e.1 ∧ e.2 ≤ 1) ∧ (∀ e ∈ [((3 : Int), 20), (2, 20)], 20 ≤ e.2) ∧
+    ¬ ∃ w', (((1 : Nat) : Int), w') ∈ (uniRowsD 0 1 1000 tieD revStableArgsort tieN tieDraw tieDraw).row 0 := by
+  refine ⟨by decide, ?_, revStableArgsort_ok, by decide, by decide, by decide, ?_⟩
+  · intro a b
+    unfold tieD
+    by_cases h1 : a = b
+    · subst h1; rfl
+    · have h2 : ¬ b = a := fun h => h1 h.symm
+      simp only [h1, h2, ↓reduceIte, or_comm]
+  · have h : (uniRowsD 0 1 1000 tieD revStableArgsort tieN tieDraw tieDraw).row 0 = [(2, 20)] := by
+      decide +kernel
+    rw [h]
+    simp
 
 end Pynn.C16
